@@ -3,7 +3,7 @@
    presentation header and all draws outside the negligible set {r1 = 0, r2 = 0} (and pk = O, sk + e = 0, which a
    decoded key / honest signature exclude): proof_gen succeeds, the proof verifies with exactly the disclosed
    messages at their positions, has length 272 + 32 * U and survives its codec. *)
-From ZK Require Import Laws BaseLemmas ModelLemmas SignProofs Codec ProofComplete.
+From ZK Require Import Laws BaseLemmas ModelLemmas SignProofs Codec ProofComplete Toy.
 
 Theorem C03_proof_complete :
   forall (E : env) (LW : Laws E) pk sigb s header ph msgs idx rho,
@@ -112,3 +112,16 @@ Proof. exact pok_to_bytes_length. Qed.
 Check (C03_pok_to_bytes_length :
   forall (E : env) (LW : Laws E) p, length (pok_to_bytes E p) = (272 + 32 * length (p_m_cap E p))%nat).
 Print Assumptions C03_pok_to_bytes_length.
+
+(* non-vacuity: the premises (Laws, suite_ok, a valid signature, draws with r1, r2 <> 0, pk <> O, sk + e <> 0) are met by a
+   concrete instance in the toy environment Z_251 (3 messages, disclosed {0, 2} given as [2; 0; 2]); the theorem applies to it *)
+Theorem C03_toy_proof_complete_applies :
+  exists p, proof_gen toyE t_pk t_sigb t_hdr t_ph (Some t_msgs) t_idx t_rho = Ok p /\
+  proof_verify toyE p t_pk (Some (pick t_msgs [0%N; 2%N])) (Some [0%N; 2%N]) t_hdr t_ph = Ok tt /\
+  length (pok_to_bytes toyE p) = (272 + 32 * 1)%nat.
+Proof. exact toy_proof_complete_applies. Qed.
+Check (C03_toy_proof_complete_applies :
+  exists p, proof_gen toyE t_pk t_sigb t_hdr t_ph (Some t_msgs) t_idx t_rho = Ok p /\
+  proof_verify toyE p t_pk (Some (pick t_msgs [0%N; 2%N])) (Some [0%N; 2%N]) t_hdr t_ph = Ok tt /\
+  length (pok_to_bytes toyE p) = (272 + 32 * 1)%nat).
+Print Assumptions C03_toy_proof_complete_applies.
